@@ -30,7 +30,9 @@ def run(ctx):
                     ctx.check('C16.W1', f.name in ('Edge::GetUnescapedDepfile', 'Edge::GetUnescapedDyndep', 'Edge::GetUnescapedRspfile'),
                               f.name, 'EdgeEnv:kDoNotEscape-site', f.where(e), 'kDoNotEscape is used only for paths ninja itself opens (%s)' % f.name)
                 else:
-                    ctx.check('C16.W1', m == 'EdgeEnv::kShellEscape' and f.name == 'Edge::GetBinding', f.name, 'EdgeEnv:mode:%s' % m,
+                    # every other evaluation escapes - wherever it is made (GetBinding today); the accessors whose result
+                    # ninja opens itself must not (checked by name below)
+                    ctx.check('C16.W1', m == 'EdgeEnv::kShellEscape' and not f.name.startswith('Edge::GetUnescaped'), f.name, 'EdgeEnv:mode:%s' % m,
                               f.where(e), 'EdgeEnv in %s uses %s' % (f.name, m))
     for name, key in (('Edge::GetUnescapedDepfile', 'depfile'), ('Edge::GetUnescapedDyndep', 'dyndep'), ('Edge::GetUnescapedRspfile', 'rspfile')):
         f = prog.fn(name)
